@@ -85,6 +85,7 @@ Verdict(t) ==
   LET bad == {k \in 2..Len(t.poses) : PoseVerdict(t, k) # "ok"} IN
   IF ~(t.lmax \in 1..30 /\ Len(t.poses) >= 1 /\ t.poses[1].word = <<>>) THEN "OOD shape" ELSE
   IF ~OneMolecule(t.base.inner) THEN "OOD not-one-molecule" ELSE
+  IF t.kind = "stockholder" /\ ~t.inside /\ t.poses[1].exc = "ValueError" THEN "OOD surface-not-inside-bounds" ELSE
   IF t.poses[1].exc # "" THEN "REJECT Raised:" \o t.kind ELSE
   IF ~(\A i \in DOMAIN t.poses[1].d : AbsV(t.poses[1].d[i]) <= Scale) \/ t.poses[1].d = <<>> THEN "OOD scaling" ELSE
   \* an atom whose surface some ray of the transform grid crosses more than once (or grazes) has no unique radial description:
